@@ -74,6 +74,11 @@ class ExprMixin:
         return None
 
     def global_val(self, q):
+        if q.startswith("pyvc.specrt."):
+            name = q.split(".")[-1]
+            if name == "EPOCH":
+                return Val(DT, z3.IntVal(0))
+            return Val(FN, ("ext", "builtins." + name))
         r = self.world.lookup(q)
         if isinstance(r, front.FuncInfo):
             return Val(FN, ("func", r))
